@@ -312,7 +312,7 @@ def run(ctx):
     all_classes = sorted({a[0] for o in G_.out.values() for (n, a) in o if n == "Fail"}, key=sorted)
     unreal = [sorted(c) for c in all_classes if not realisable(c)]
     full = 4 if ctx.quick else 6
-    nvar = 1 if ctx.quick else 3
+    nvar = 1 if ctx.quick else 2
     runs = []
     jit_cycles = [("lo",), ("hi",), ("mid",), ("lo", "hi", "mid"), ("hi", "mid", "lo")]
     k = 0
